@@ -152,7 +152,7 @@ struct MemEngine : Engine {
     alignas(64) unsigned char areg[4][64]; alignas(64) unsigned char mreg[4][64];
     alignas(64) unsigned char idxbuf[64]; alignas(64) unsigned char scratch[128]; alignas(64) unsigned char garbage[64];
     bool watch_ok = false; std::string calib; int cpu_level = 0;   // 0 sse, 1 avx, 2 avx512f, 3 avx512bw
-    RunResult* rr = nullptr; Stats* st = nullptr;
+    RunResult* rr = nullptr; Stats* st = nullptr; std::size_t last_pf_end = (std::size_t)-1; int last_pf_key = -1;
 
     const char* name() const override { return "mem"; }
 
@@ -563,6 +563,8 @@ struct MemEngine : Engine {
         char tup[200]; std::snprintf(tup, sizeof tup, "pf|w=%d|l=%d|%s|ncls=%zu|ptr=%s|off=%zu|bad=%d|f=%s", c.pw, c.plevel, form.c_str(), bytes == 0 ? 0 : bytes <= 64 ? 1 : bytes <= 4096 ? 2 : 3, ptr.c_str(), c.p % 64, (int)hits_bad, fault.c_str());
         st->case_seen(tup, hits_bad || do_neigh);
         if (hits_bad) st->probes["prefetch_range_touches_inaccessible_memory"]++;
+        if (!c.use_raw && last_pf_end == c.p && last_pf_key == (c.pw * 3 + c.plevel) && c.p % PG == 0 && page_state(pages, c.p) != 'W') st->probes["prefetch_stream_continues_into_inaccessible_page"]++;
+        last_pf_end = c.use_raw ? (std::size_t)-1 : c.p + bytes; last_pf_key = c.pw * 3 + c.plevel;
         if (ptr == "null") st->probes["prefetch_null_pointer"]++;
         if (bytes == 0) st->probes["prefetch_n0"]++;
         if (!ok || nf > 0) {
@@ -578,7 +580,7 @@ struct MemEngine : Engine {
     }
 
     void execute(const Plan& pl, RunResult& r, Stats& s) override {
-        rr = &r; st = &s; r.log.line(pl.head.text());
+        rr = &r; st = &s; r.log.line(pl.head.text()); last_pf_end = (std::size_t)-1; last_pf_key = -1;
         unsigned memseed = (unsigned)pl.head.unum("mem", 1);
         // whatever the previous run left on the stack or in vector registers is replaced by plan-determined garbage,
         // so that steps without an explicit poison still see a history that is a function of THIS plan only
@@ -660,7 +662,21 @@ struct MemEngine : Engine {
             for (unsigned w = 0; w < 2; ++w) for (unsigned lv = 0; lv < 3; ++lv) for (unsigned form = 0; form < 6; ++form) for (unsigned nc = 0; nc < 10; ++nc) for (unsigned pc = 0; pc < 9; ++pc) pfsweep.push_back({w * 3 + lv, form, nc, pc});
         }
     }
-    std::uint64_t sweep_count() override { return sweep.size() + pfsweep.size(); }
+    // streaming sequences for prefetch: consecutive requests, each starting exactly where the previous one ended, walking
+    // up to and into an inaccessible page (what a "work on block k, prefetch block k+1" loop does at the end of a buffer)
+    std::uint64_t stream_plans() const { return (prop == "C20" || prop.empty()) ? 2 * 3 * 3 * 3 * 4 : 0; }
+    void stream_plan(std::uint64_t i, Plan& out) {
+        unsigned w = (unsigned)(i % 2), lv = (unsigned)(i / 2 % 3), form = (unsigned)(i / 6 % 3), bad = (unsigned)(i / 18 % 3), var = (unsigned)(i / 54 % 4);
+        static const char* F[3] = {"untyped", "typed0", "typed1"}; static const char BADS[3] = {'N', 'H', 'R'};
+        std::string pages = "WWWWWWWW"; pages[4] = BADS[bad];
+        std::size_t blk = var == 0 ? 64 : var == 1 ? 256 : var == 2 ? 4096 : 192; std::size_t start = 4 * PG - 3 * blk - (var == 3 ? 0 : 0);
+        for (unsigned k = 0; k < 5; ++k) {
+            Step s; s.op = "prefetch"; s.setu("w", w); s.setu("level", lv); s.set("form", F[form]); s.setu("n", form == 2 ? blk / 4 : blk);
+            s.set("ptr", "win"); s.setu("p", start + k * blk); s.set("pages", pages); s.setu("poison", k ? 0 : 7); s.set("fault", "none"); s.set("place", "stream");
+            out.steps.push_back(s);
+        }
+    }
+    std::uint64_t sweep_count() override { return sweep.size() + pfsweep.size() + stream_plans(); }
 
     static const char* form_name(unsigned f) { static const char* F[5] = {"rt", "art", "ct", "act", "def"}; return F[f]; }
 
@@ -692,6 +708,7 @@ struct MemEngine : Engine {
 
     void sweep_plan(std::uint64_t i, Plan& out) override {
         head(out, "sweep", (unsigned)(i % 251 + 1));
+        if (i >= sweep.size() + pfsweep.size()) { stream_plan(i - sweep.size() - pfsweep.size(), out); return; }
         if (i >= sweep.size()) { pf_sweep_plan(i - sweep.size(), out); return; }
         const SweepCase& sc = sweep[(std::size_t)i]; const MType* t = types[sc.type];
         Step sr; sr.op = "setreg"; sr.set("r", 1); sr.setu("tag", i * 3 + 7); sr.setu("cls", (i / 7) % 3 == 0 ? (i % 6) : 0); out.steps.push_back(sr);
@@ -753,6 +770,18 @@ struct MemEngine : Engine {
         bool focus_val = prop == "C08";
         unsigned nsteps = (unsigned)r.range(4, 24);
         for (unsigned k = 0; k < nsteps; ++k) {
+            if (c20 && r.chance(1, 8)) {
+                // a stream: 2..6 consecutive requests at one level, each continuing where the previous one ended
+                unsigned w_ = (unsigned)r.below(2), lv = (unsigned)r.below(3), fm = (unsigned)r.below(5); std::size_t blk = (std::size_t)r.pick(std::vector<std::size_t>{16, 64, 100, 256, 1024, 4096}); unsigned cnt = (unsigned)r.range(2, 6);
+                std::string pg = "WWWWWWWW"; unsigned badpage = 2 + (unsigned)r.below(5); pg[badpage] = "NHR"[r.below(3)];
+                static const unsigned TS[4] = {1, 4, 8, 64}; unsigned ts = fm == 0 ? 1 : TS[fm - 1]; blk = (blk + ts - 1) / ts * ts;
+                std::size_t endk = 1 + (std::size_t)r.below(cnt); std::size_t start = badpage * PG >= endk * blk ? badpage * PG - endk * blk : 0;   // request number endk+1 begins exactly at the bad page
+                for (unsigned q = 0; q < cnt && start + (q + 1) * blk < WBYTES; ++q) {
+                    Step s; s.op = "prefetch"; s.setu("w", w_); s.setu("level", lv); s.set("form", fm == 0 ? "untyped" : pf_form(fm)); s.setu("n", blk / ts); s.set("ptr", "win"); s.setu("p", start + q * blk);
+                    s.set("pages", pg); s.setu("poison", 0); s.set("fault", "none"); s.set("place", "stream"); out.steps.push_back(s);
+                }
+                k += cnt - 1; continue;
+            }
             if (c20 && !r.chance(1, 6)) {
                 Step s; s.op = "prefetch"; s.setu("w", r.below(2)); s.setu("level", r.below(3)); s.set("form", pf_form((unsigned)r.below(6)));
                 unsigned nc = (unsigned)r.below(12); std::size_t n = nc < 10 ? pf_n(nc, r.below(64)) : (std::size_t)r.below(30000); if (s.str("form") == "typed3") n /= 32; s.setu("n", n);
